@@ -1029,3 +1029,231 @@ PROPS["C05"] = {
                     "contracts that move value internally, self-destruct or call bank-moving precompiles are not generated yet (they are "
                     "covered by the StateDB model of C03/C04); the supply is observed on the implementation, not modelled"],
 }
+
+
+# ------------------------------------------------------------------------------------------------ C04 / C03: reference semantics
+import copy as _copy
+
+
+class RefWorld:
+    """Copy-on-snapshot reference: a journaled world (accounts, storage, refund, logs, access list) together with a journaled
+    multistore (bank unibi = the account balance, and one foreign module value per account)."""
+
+    def __init__(self, accts, slots):
+        self.acc = {}      # addr -> dict(bal(wei), nonce, code, suicided)
+        self.st = {}       # (addr,key) -> val
+        self.other = {}
+        self.orig = {}     # committed storage at tx start
+        for a, x in accts.items():
+            if x["exists"]:
+                self.acc[a] = dict(bal=x["bal"] * E12, nonce=x["nonce"], code=x["code"], suicided=False)
+            if x["other"]:
+                self.other[a] = x["other"]
+        for (a, k), v in slots.items():
+            self.st[(a, k)] = v
+            self.orig[(a, k)] = v
+        self.refund, self.logs, self.al, self.als = 0, 0, set(), set()
+        self.snaps = []
+        self.next = 0
+        self.pc = 0
+
+    def state(self):
+        return _copy.deepcopy((self.acc, self.st, self.other, self.refund, self.logs, self.al, self.als))
+
+    def restore(self, st):
+        self.acc, self.st, self.other, self.refund, self.logs, self.al, self.als = _copy.deepcopy(st)
+
+    def touch(self, a):
+        if a not in self.acc:
+            self.acc[a] = dict(bal=0, nonce=0, code=0, suicided=False)
+        return self.acc[a]
+
+
+def parse_sdb_store(args):
+    accts, slots = {}, {}
+    for it in plist(sec(args, "ACC")):
+        f = it.split(":")
+        a = int(f[0])
+        if f[1] == "-":
+            accts[a] = dict(exists=False, nonce=0, code=0, bal=0, other=int(f[2]))
+        else:
+            accts[a] = dict(exists=True, nonce=int(f[1]), code=int(f[2]), bal=int(f[3]), other=int(f[4]))
+    for it in plist(sec(args, "ST")):
+        ak, v = it.split("=")
+        a, k = ak.split(".")
+        slots[(int(a), int(k))] = int(v)
+    return accts, slots
+
+
+def oracle_sdb(run, ops, impl, prop):
+    """Evaluates C04 (frame atomicity incl. precompile side effects; balance views agree) on the implementation's trace of
+    StateDB API calls, against the copy-on-snapshot reference. Sequences that use CreateAccount/Suicide are only compared on
+    what the reference defines unambiguously."""
+    out = []
+    W = None
+    skip = False
+    uses_pre = False
+    for i, (op, ob) in enumerate(zip(ops, impl)):
+        a = op.split()
+        kind = a[1]
+        if kind == "reset":
+            accts, slots = parse_sdb_store(a[2:])
+            W = RefWorld(accts, slots)
+            skip = False
+            uses_pre = False
+            reverted_pre = False     # a call frame containing a precompile call has been reverted
+            snap_pos = {}
+            pre_pos = []
+            seq_start = i
+            continue
+        if skip or W is None:
+            continue
+        if ob.startswith("panic") and kind not in ("subRefund", "revert"):
+            out.append(V("%s:panic-in-%s" % (prop, kind), {"line": i + 1, "op": op}))
+            skip = True
+            continue
+        n = lambda x: int(x)
+        if kind == "read":
+            x = W.acc.get(n(a[2]))
+            want = "000:0:0:0" if x is None else None
+            if x is None:
+                want = "010:0:0:0"
+            else:
+                empty = x["nonce"] == 0 and x["bal"] == 0 and x["code"] == 0
+                want = "1%s%s:%d:%d:%d" % ("1" if empty else "0", "1" if x["suicided"] else "0", x["bal"], x["nonce"], x["code"])
+            if ob != want:
+                sig = "view-differs-from-reference"
+                if reverted_pre:
+                    sig = "view-differs-after-reverted-precompile-frame"
+                elif uses_pre:
+                    sig = "view-differs-after-precompile-without-revert"
+                out.append(V("%s:%s" % (prop, sig), {"line": i + 1, "op": op, "got": ob, "want": want, "sequence_start": seq_start + 1}))
+                skip = True
+        elif kind == "getState":
+            ad, k = n(a[2]), n(a[3])
+            cur = W.st.get((ad, k), 0) if ad in W.acc else 0
+            com = W.orig.get((ad, k), 0) if ad in W.acc else 0
+            got_cur = ob.split("/")[0]
+            if got_cur != str(cur):
+                sig = "storage-view-differs-after-reverted-precompile-frame" if reverted_pre else (
+                    "storage-view-differs-after-precompile-without-revert" if uses_pre else "storage-view-differs-from-reference")
+                out.append(V("%s:%s" % (prop, sig), {"line": i + 1, "op": op, "got": ob, "want": "%d/%d" % (cur, com)}))
+                skip = True
+        elif kind == "misc":
+            pass
+        elif kind == "addBalance":
+            x = W.touch(n(a[2]))
+            x["bal"] += int(a[3])
+        elif kind == "setNonce":
+            W.touch(n(a[2]))["nonce"] = n(a[3])
+        elif kind == "setCode":
+            W.touch(n(a[2]))["code"] = n(a[3])
+        elif kind == "setState":
+            W.touch(n(a[2]))
+            W.st[(n(a[2]), n(a[3]))] = n(a[4])
+        elif kind in ("createAccount", "suicide"):
+            skip = True      # outside what this reference defines; covered by model-vs-implementation and the geth differential
+        elif kind == "addLog":
+            W.logs += 1
+        elif kind == "addRefund":
+            W.refund += n(a[2])
+        elif kind == "subRefund":
+            if ob != "panic":
+                W.refund -= n(a[2])
+        elif kind == "addAddr":
+            W.al.add(n(a[2]))
+        elif kind == "addSlot":
+            W.al.add(n(a[2]))
+            W.als.add((n(a[2]), n(a[3])))
+        elif kind == "snapshot":
+            snap_pos[W.next] = i
+            W.snaps.append((W.next, W.state()))
+            W.next += 1
+        elif kind == "revert":
+            rid = n(a[2])
+            idx = [j for j, (x, _) in enumerate(W.snaps) if x == rid]
+            if not idx:
+                if ob != "panic":
+                    out.append(V("%s:revert-of-invalid-id-accepted" % prop, {"line": i + 1}))
+                skip = True
+                continue
+            if any(p > snap_pos.get(rid, i) for p in pre_pos):
+                reverted_pre = True
+            W.restore(W.snaps[idx[0]][1])
+            W.snaps = W.snaps[:idx[0]]
+        elif kind == "precompile":
+            uses_pre = True
+            pre_pos.append(i)
+            W.pc += 1
+            res = ob.split()[0]
+            if W.pc > 10:
+                if res != "limit":
+                    out.append(V("%s:precompile-call-limit-not-enforced" % prop, {"line": i + 1}))
+                continue
+            if a[2] == "other":
+                W.touch(n(a[3]))
+                W.other[n(a[3])] = W.other.get(n(a[3]), 0) + int(a[4])
+            elif a[2] == "move":
+                src, dst, amt = n(a[3]), n(a[4]), int(a[5])
+                have = W.acc.get(src, {"bal": 0})["bal"] // E12
+                if have < amt:
+                    if res != "insufficient":
+                        out.append(V("%s:bank-move-without-funds-accepted" % prop, {"line": i + 1, "op": op}))
+                        skip = True
+                else:
+                    if res != "ok":
+                        out.append(V("%s:bank-move-refused" % prop, {"line": i + 1, "op": op, "obs": ob[:200]}))
+                        skip = True
+                        continue
+                    # the bank holds whole unibi: the accounts the bank touched lose their sub-unibi remainder (by design)
+                    if src != dst:
+                        W.touch(src)["bal"] = (W.touch(src)["bal"] // E12 - amt) * E12
+                        W.touch(dst)["bal"] = (W.touch(dst)["bal"] // E12 + amt) * E12
+                    else:
+                        W.touch(src)["bal"] = (W.touch(src)["bal"] // E12) * E12
+        elif kind == "commit":
+            accts, slots = parse_sdb_store(ob[2:].split())
+            bad = []
+            for ad in range(4):
+                x = W.acc.get(ad)
+                g = accts.get(ad)
+                if x is None:
+                    if g["exists"] or g["other"] != W.other.get(ad, 0):
+                        bad.append(("account", ad))
+                    continue
+                if not g["exists"] or (g["nonce"], g["code"], g["bal"]) != (x["nonce"], x["code"], x["bal"] // E12) or g["other"] != W.other.get(ad, 0):
+                    bad.append(("account", ad, {"persisted": g, "reference": dict(nonce=x["nonce"], code=x["code"], bal=x["bal"] // E12, other=W.other.get(ad, 0))}))
+                for k in range(3):
+                    if slots.get((ad, k), 0) != W.st.get((ad, k), 0):
+                        bad.append(("slot", ad, k, slots.get((ad, k), 0), W.st.get((ad, k), 0)))
+            if bad:
+                what = "committed-state-differs-after-reverted-precompile-frame" if reverted_pre else (
+                    "committed-state-differs-after-precompile-without-revert" if uses_pre else "committed-state-differs-from-reference")
+                out.append(V("%s:%s" % (prop, what), {"line": i + 1, "sequence_start": seq_start + 1, "differences": bad[:4],
+                                                        "ops": [o for o in ops[seq_start:i + 1] if o.split()[1] not in ("read", "getState", "misc")][:40]}))
+            skip = True
+    return out
+
+
+def oracle_c04(run, ops, impl):
+    return oracle_sdb(run, ops, impl, "C04")
+
+
+PROPS["C04"] = {
+    "modules": ["NibiruProofs.C04"],
+    "runs": [{"model": "sdb", "n_quick": 400, "n_thorough": 8000, "nontrivial": r"^P:ACC="}],
+    "oracle": oracle_c04,
+    "rule": "corpus first (corpus/C04/*.ops: minimal histories of the known findings and an atomic control case), then generated "
+            "histories of vm.StateDB calls on the real StateDB and keeper: balance/nonce/code/storage writes, CreateAccount, logs, "
+            "refunds, access list, nested Snapshot/RevertToSnapshot (valid and invalid ids), explicit reads (which also cache state "
+            "objects, as in the real code), the OnRunStart sequence of a precompile call followed by a bank move of unibi between "
+            "accounts / a foreign-module write / nothing, up to and beyond the per-tx precompile limit, and Commit; SELFDESTRUCT is "
+            "generated only in histories without precompile calls (their combination panics in the real code and is exercised by the "
+            "corpus instead); observations: read results, cache-context store after every precompile call, persisted accounts / "
+            "storage / foreign values after Commit; non-trivial = the history committed",
+    "assumptions": ["precompile bodies are abstracted to their multistore effect (bank unibi move, foreign-module write)",
+                    "sub-unibi remainders of accounts touched by a bank move are dropped by design (bank holds whole unibi)",
+                    "the full atomicity theorem is NOT proved: the property is false on the unchanged tree (known findings C04-lost-write, "
+                    "C04-stale-balance); proved: the two counterexamples, multistore restoration by the PrecompileCalled entry, "
+                    "balance-view agreement after SyncStateDBWithAccount"],
+}
